@@ -96,7 +96,7 @@ def expected(tracks):
     fmt18 = (ts[0].fmt16 + b"\0\0") if ts else DEFAULT_FMT + b"\0\0"
     arc = clm_encode(fmt18, [(t.name, t.data) for t in ts])
     head = f"ok {show(arc)} {len(ts)}"
-    members = [(f"{t.name.hex()}:{len(t.data)}:{show(t.data)}", t) for t in ts]
+    members = [(f"{t.name.hex()}|{len(t.data)}|{show(t.data)}", t) for t in ts]
     return head, members
 
 def pack_check(tracks):
@@ -107,9 +107,9 @@ def pack_check(tracks):
             return f"archive bytes / member count differ from the reference layout: wanted {head!r}, got {' '.join(parts[:3])[:120]!r}"
         if len(parts) != 3 + len(members): return f"{len(parts) - 3} members listed, {len(members)} packed"
         for got, (want, t) in zip(parts[3:], members):
-            if got.rsplit(":", 1)[0] != want:
-                return f"member {t.name!r}: name:size:stream is {got.rsplit(':', 1)[0][:100]!r}, the sources say {want[:100]!r}"
-            msg = check_wav(got.rsplit(":", 1)[1], t.fmt16 if tracks else DEFAULT_FMT, t.data)
+            if got.rsplit("|", 1)[0] != want:
+                return f"member {t.name!r}: name|size|stream is {got.rsplit('|', 1)[0][:100]!r}, the sources say {want[:100]!r}"
+            msg = check_wav(got.rsplit("|", 1)[1], t.fmt16 if tracks else DEFAULT_FMT, t.data)
             if msg: return f"member {t.name!r}: {msg}"
         return None
     return chk
